@@ -214,3 +214,35 @@ CLAIMS["C12"] = {
     "technique": "static analysis: ownership/pairing lint over the package (who-may-mutate), sibling key-kind agreement, "
                  "attribute-propagation check on edge splicing",
 }
+
+CLAIMS["C06"] = {
+    "text": "Decides structural necessary conditions of physical, backend-independent, switchable noise: every supported model "
+            "handles every representation the compile loop can hand it (class-hierarchy cover); with noise switched off, an "
+            "empty map or NoNoise the noise code is unreachable (flag initialisation, monotone updates, ideal-gate-only arm, "
+            "NoNoise defaults); sibling branches of one model use the same scaling factor / the shared factors array with the "
+            "identity first; wrapper noise lists follow `operations` order; PauliError's tags are handled by run_circuit; the "
+            "temporary noise swap in compile is restored on all paths. Over all circuits and noise maps since the rules are on "
+            "code paths. Does not decide positivity, trace values or cross-backend fidelity equality numerically.",
+    "ref": "DESIGN.md §5.6",
+    "note": "Supported model set {DepolarizingNoise, PauliError, PhotonLoss} and representation set {DensityMatrix, "
+            "MixedStabilizer, Stabilizer} are frozen from the property statement and CompilerBase.compile's `mixed=` expression.",
+    "technique": "static analysis: dispatch cover over the class hierarchy, flag monotonicity / reachability check, sibling "
+                 "factor agreement, direction calculus, save/restore flow pairing",
+}
+
+CLAIMS["C13"] = {
+    "text": "Decides structural necessary conditions of 'library calls do not mutate their inputs' and of order-preserving "
+            "rewrites: no in-place circuit/state mutator reaches a caller-supplied object at any read-only entry point "
+            "(directly or through callees, summaries to a fixpoint over exact call edges) without a copy; no attribute store on "
+            "an operation drawn from a circuit's sequence inside the entry points' call closure except on fresh copies or "
+            "restored swaps; caller data is copied before entering a reference-keeping representation; unwrap_nodes / "
+            "group_one_qubit_gates / noise lists respect 'last listed acts first'. One named advisory "
+            "(TimeReversedSolver.__init__ converts its target in place; state-preserving for graph-state targets). "
+            "Does not decide numerically that rewrites preserve the compiled state.",
+    "ref": "DESIGN.md §5.13",
+    "note": "Mutator set (CircuitDAG.add/insert_at/remove_op/replace_op/unwrap_nodes/remove_identity/group_one_qubit_gates, "
+            "QuantumState.partial_trace/convert_representation, representation apply_*) frozen from the API by reading; "
+            "by-name-only call candidates are not followed (exact edges only).",
+    "technique": "static analysis: effect summaries over the call graph (fixpoint), intraprocedural alias classes "
+                 "(param-derived / fresh / from-circuit), save/restore flow pairing, direction calculus",
+}
